@@ -806,6 +806,12 @@ class ExprMixin(object):
     def subscript(self, c, i, st, node=None):
         c, i = self.deref(c, st), self.deref(i, st)
         if isinstance(c, Dual): c = c.dict
+        if isinstance(c, Opt):
+            # subscript of an optional value: TypeError when it is None
+            s_n = st.copy(); s_n.pc.append(c.isnone)
+            if self.feasible(s_n): self.raise_exc('TypeError', s_n)
+            st.pc.append(z3.Not(c.isnone))
+            return self.subscript(c.val, i, st, node)
         if isinstance(c, (Tup, PyList)):
             if isinstance(i, Sc) and z3.is_int_value(z3.simplify(i.z)):
                 k = z3.simplify(i.z).as_long()
@@ -981,9 +987,20 @@ def _has_quantifier(f):
         stack.extend(x.children())
     return False
 
-def _order_after_insert(d, k):
-    """insertion order after d[k] = v: unchanged for a key that is present, the key appended otherwise"""
-    return None if d.order is None else z3.If(z3.Select(d.has, k), d.order, z3.Concat(d.order, z3.Unit(k)))
+def _order_after_insert(d, k, st=None):
+    """insertion order after d[k] = v: unchanged for a key that is present, the key appended otherwise.
+    With a state, the new order is a named constant defined by two implications (terms with `ite` cannot serve in patterns)."""
+    if d.order is None: return None
+    if st is None: return z3.If(z3.Select(d.has, k), d.order, z3.Concat(d.order, z3.Unit(k)))
+    o2 = fresh(d.order.sort(), 'order'); n = z3.Length(d.order)
+    i_ = z3.Int('i!ins')
+    st.pc += [z3.Implies(z3.Select(d.has, k), o2 == d.order),
+              z3.Implies(z3.Not(z3.Select(d.has, k)), z3.And(o2 == z3.Concat(d.order, z3.Unit(k)), z3.Length(o2) == n + 1, o2[n] == k)),
+              z3.Length(o2) >= n]
+    try:    # valid instances of the theory of sequences, stated for the matcher: the old positions keep their keys
+        st.pc.append(z3.ForAll([i_], z3.Implies(z3.And(0 <= i_, i_ < n), o2[i_] == d.order[i_]), patterns=[d.order[i_]]))
+    except z3.Z3Exception: pass
+    return o2
 
 def odict_wf(d):
     """the order sequence of a dict lists exactly its keys, each once"""
@@ -1192,7 +1209,7 @@ class StmtMixin(object):
             if isinstance(r, SymDict):
                 kt = self.key_term(k, st)
                 st.cells[recv.id] = SymDict(z3.Store(r.has, kt, z3.BoolVal(True)), z3.Store(r.get, kt, self.as_fn(v, st) if r.vty.kind == 'Fn' else unwrap(self.deref(v, st))), r.kty, r.vty,
-                                            order=_order_after_insert(r, kt))
+                                            order=_order_after_insert(r, kt, st))
                 return
             raise Unsupported('subscript store on %r' % (r,))
         raise Unsupported('assignment target %s' % type(target).__name__)
@@ -2100,12 +2117,12 @@ class CallMixin(object):
                 DS = r.vty.sort()
                 empty = DS.mkdict(z3.K(r.vty.args[0].sort(), z3.BoolVal(False)), fresh(z3.ArraySort(r.vty.args[0].sort(), r.vty.args[1].sort()), 'empty.get'))
                 ng = z3.Store(r.get, k, z3.If(z3.Select(r.has, k), z3.Select(r.get, k), empty))
-                st.cells[recv.id] = SymDict(z3.Store(r.has, k, z3.BoolVal(True)), ng, r.kty, r.vty, order=_order_after_insert(r, k))
+                st.cells[recv.id] = SymDict(z3.Store(r.has, k, z3.BoolVal(True)), ng, r.kty, r.vty, order=_order_after_insert(r, k, st))
                 return [(InnerRef(recv, k), st)]
             dz = unwrap(dflt) if not isinstance(dflt, FnV) else dflt.z
             if r.vty.kind == 'Fn': dz = self.as_fn(args[1], st)
             ng = z3.Store(r.get, k, z3.If(z3.Select(r.has, k), z3.Select(r.get, k), dz))
-            st.cells[recv.id] = SymDict(z3.Store(r.has, k, z3.BoolVal(True)), ng, r.kty, r.vty, order=_order_after_insert(r, k))
+            st.cells[recv.id] = SymDict(z3.Store(r.has, k, z3.BoolVal(True)), ng, r.kty, r.vty, order=_order_after_insert(r, k, st))
             return [(wrap(r.vty, z3.Select(ng, k)), st)]
         if isinstance(r, SymDict) and name == 'keys' and not args:
             return [(SymKeys(r), st)]
@@ -2378,7 +2395,7 @@ class CallMixin(object):
             if not isinstance(v, Ref): raise Unsupported('modified parameter %s is not a mutable object' % nm)
             st.cells[v.id] = self.havoc_value(st.cells[v.id], '%s@%s' % (nm, fi.qualname))
         post_state = st; frame = post_env
-        res_v, res_z = NONE, None
+        res_v, res_z = NONE, None; variants = None
         if c.result is not None and c.result.kind == 'Tuple':
             items = []
             for i_, ty_ in enumerate(c.result.args):
@@ -2402,6 +2419,8 @@ class CallMixin(object):
             inner = c.result.args[0]
             res_v = Opt(fresh(BoolS, 'res?none_' + fi.qualname.split('.')[-1]), wrap(inner, fresh(inner.sort(), 'res_' + fi.qualname.split('.')[-1])))
             res_z = res_v
+        elif c.result is not None and c.result.kind == 'Any' and getattr(c, 'result_variants', None):
+            variants = list(c.result_variants)     # a result of one of several classes: one continuation per class (the postcondition says which one it is when)
         elif c.result is not None and c.result.kind != 'None':
             res_z = fresh(c.result.sort(), 'res_' + fi.qualname.split('.')[-1])
             res_v = wrap(c.result, res_z)
@@ -2423,6 +2442,13 @@ class CallMixin(object):
             s_r = pre_state.copy(); s_r.frames.pop(); s_r.pc.append(cond)
             self._raises.append(Outcome('raise', s_r, ExcV(cls_, origin=c.qualname)))
             st.pc.append(z3.Not(cond))
+        if variants is not None:
+            outs_ = []
+            for ty_ in variants:
+                s_v = st.copy(); rz_ = fresh(ty_.sort(), 'res_' + fi.qualname.split('.')[-1])
+                s_v.pc += c.ensures(NS(self, s_v, frame=frame), ns_pre, rz_)
+                if self.feasible(s_v): outs_.append((wrap(ty_, rz_), s_v))
+            return outs_
         st.pc += c.ensures(ns_post, ns_pre, res_z)
         if c.names_result is not None: st.pc += c.names_result(ns_post, res_z)
         return [(res_v, st)]
@@ -2531,6 +2557,10 @@ class CallMixin(object):
             st.pc += [x >= 0, y >= 0, y * y == x]
             self.reg.assume('math.sqrt(x) for x >= 0 is the non-negative y with y*y == x (exact; its rounding is A1); ValueError for x < 0')
             return [(Sc(y, 'float'), st)]
+        if mod == 'sys' and name == 'exit':
+            self.raise_exc('SystemExit', st); return []
+        if mod == 'logging' and name == 'getLogger':
+            return [(Builtin('logger'), st)]
         if mod == 'collections' and name == 'OrderedDict' and not args and not kw:
             return [(st.new_cell(PyDict({})), st)]      # (every dict is insertion ordered; whether the order is tracked is the declared type's business: T.ODict)
         if '%s.%s' % (mod, name) == 'itertools.chain.from_iterable' and len(args) == 1:
